@@ -56,7 +56,8 @@ func arrOfIntNil(o object.PanObject, v int64) bool {
 var c13Kinds = []string{"ValueErr", "TypeErr", "ZeroDivisionErr", "NameErr", "NoPropErr", "AssertionErr"}
 
 // H_C13_try: a chain of k steps (k = Param(0)); each step's form is a solver choice
-// (property call, operator call, literal call); step i raises iff i == K.
+// (property call, operator call, literal call, property call with positional / keyword
+// arguments); step i raises iff i == K.
 func H_C13_try() {
 	k := rt.Param(0)
 	h := NewH()
@@ -65,10 +66,10 @@ func H_C13_try() {
 	rt.Assume(K >= 0 && K <= int64(k))
 	// the receiver: an object whose methods are the steps (names the Either wrapper does
 	// not define itself, see DESIGN.md Appendix B, C13 domain note)
-	h.Eval(`o := {n: 5, stp1: m{|| step(1); self}, stp2: m{|| step(2); self}, stp3: m{|| step(3); self}, '+: m{|d| step(d); self}}`)
+	h.Eval(`o := {n: 5, stp1: m{|| step(1); self}, stp2: m{|| step(2); self}, stp3: m{|| step(3); self}, '+: m{|d| step(d); self}, stpk: m{|i, by: 0| step(i - 50 + by); self}, stpp: m{|i, j| step(i + j - 7); self}}`)
 	forms := make([]int, k)
 	for i := range forms {
-		forms[i] = rt.Choice(3)
+		forms[i] = rt.Choice(5)
 	}
 	mk := func(recv string) string {
 		expr := recv
@@ -80,6 +81,10 @@ func H_C13_try() {
 				expr += fmt.Sprintf(".{|x| step(%d); x}", i)
 			case 2: // operator call
 				expr += fmt.Sprintf(".+(%d)", i) // operator call in chain form
+			case 3: // property call with a positional and a keyword argument
+				expr += fmt.Sprintf(".stpk(%d, by: 50)", i)
+			case 4: // property call with two positional arguments
+				expr += fmt.Sprintf(".stpp(%d, 7)", i)
 			}
 		}
 		return expr
